@@ -381,6 +381,137 @@ func (g *gen) timeFormats() {
 	g.fail(name, "timeFormats not found")
 }
 
+// byteLit: []byte("lit") -> lit
+func (g *gen) byteLit(e ast.Expr) (string, bool) {
+	call, ok := e.(*ast.CallExpr)
+	if !ok || len(call.Args) != 1 {
+		return "", false
+	}
+	if _, ok := call.Fun.(*ast.ArrayType); !ok {
+		return "", false
+	}
+	c, ok := g.constVal(call.Args[0])
+	if !ok || c.Kind() != constant.String {
+		return "", false
+	}
+	return constant.StringVal(c), true
+}
+
+// decoders: the data of decodeIntervalState and decodeChangesetState:
+//   interval_keys       the keys compared with parts[0] in the if / else-if chain, each with the
+//                       State field its branch assigns
+//   *_seps              the separators of the bytes.Split calls, in source order
+//   changeset_join_sep  the separator of bytes.Join
+//   changeset_line_indices  the constant indices into `lines`, in source order
+//   *_parsers           the strconv functions called, in source order
+func (g *gen) decoders(decls map[string]*ast.FuncDecl) {
+	splitSeps := func(fd *ast.FuncDecl, fn string) []string {
+		var l []string
+		ast.Inspect(fd.Body, func(nd ast.Node) bool {
+			if c, ok := nd.(*ast.CallExpr); ok && isSel(c.Fun, "bytes", fn) && len(c.Args) == 2 {
+				if s, ok := g.byteLit(c.Args[1]); ok {
+					l = append(l, tr.CoqString(s))
+				} else {
+					l = append(l, "\"?\"")
+				}
+			}
+			return true
+		})
+		return l
+	}
+	parsers := func(fd *ast.FuncDecl) []string {
+		var l []string
+		ast.Inspect(fd.Body, func(nd ast.Node) bool {
+			if c, ok := nd.(*ast.CallExpr); ok {
+				if s, ok := c.Fun.(*ast.SelectorExpr); ok {
+					if id, ok := s.X.(*ast.Ident); ok && id.Name == "strconv" {
+						l = append(l, tr.CoqString("strconv."+s.Sel.Name))
+					}
+				}
+			}
+			return true
+		})
+		return l
+	}
+	if fd := decls["decodeIntervalState"]; fd == nil {
+		g.fail("interval_keys", "decodeIntervalState not found")
+	} else {
+		var pairs []string
+		bad := false
+		ast.Inspect(fd.Body, func(nd ast.Node) bool {
+			is, ok := nd.(*ast.IfStmt)
+			if !ok {
+				return true
+			}
+			c, ok := is.Cond.(*ast.CallExpr)
+			if !ok || !isSel(c.Fun, "bytes", "Equal") || len(c.Args) != 2 {
+				return true
+			}
+			ix, ok := c.Args[0].(*ast.IndexExpr)
+			if !ok {
+				return true
+			}
+			if v, ok := g.constVal(ix.Index); !ok || v.ExactString() != "0" {
+				return true
+			}
+			key, ok := g.byteLit(c.Args[1])
+			if !ok {
+				bad = true
+				return true
+			}
+			field := ""
+			for _, st := range is.Body.List {
+				ast.Inspect(st, func(n2 ast.Node) bool {
+					if _, isIf := n2.(*ast.IfStmt); isIf {
+						return false
+					}
+					if as, ok := n2.(*ast.AssignStmt); ok && field == "" {
+						for _, lhs := range as.Lhs {
+							if se, ok := lhs.(*ast.SelectorExpr); ok {
+								if id, ok := se.X.(*ast.Ident); ok && id.Name == "state" {
+									field = se.Sel.Name
+								}
+							}
+						}
+					}
+					return true
+				})
+			}
+			if field == "" {
+				bad = true
+			}
+			pairs = append(pairs, fmt.Sprintf("(%s, %s)", tr.CoqString(key), tr.CoqString(field)))
+			return true
+		})
+		if bad || len(pairs) == 0 {
+			g.fail("interval_keys", "the key chain of decodeIntervalState was not recognised")
+		} else {
+			fmt.Fprintf(&g.b, "Definition interval_keys : list (string * string) := [%s].\n", strings.Join(pairs, "; "))
+		}
+		fmt.Fprintf(&g.b, "Definition interval_seps : list string := [%s].\n", strings.Join(splitSeps(fd, "Split"), "; "))
+		fmt.Fprintf(&g.b, "Definition interval_parsers : list string := [%s].\n", strings.Join(parsers(fd), "; "))
+	}
+	if fd := decls["decodeChangesetState"]; fd == nil {
+		g.fail("changeset_seps", "decodeChangesetState not found")
+	} else {
+		fmt.Fprintf(&g.b, "Definition changeset_seps : list string := [%s].\n", strings.Join(splitSeps(fd, "Split"), "; "))
+		fmt.Fprintf(&g.b, "Definition changeset_join_seps : list string := [%s].\n", strings.Join(splitSeps(fd, "Join"), "; "))
+		fmt.Fprintf(&g.b, "Definition changeset_parsers : list string := [%s].\n", strings.Join(parsers(fd), "; "))
+		var idx []string
+		ast.Inspect(fd.Body, func(nd ast.Node) bool {
+			if ix, ok := nd.(*ast.IndexExpr); ok {
+				if id, ok := ix.X.(*ast.Ident); ok && id.Name == "lines" {
+					if v, ok := g.constVal(ix.Index); ok && v.Kind() == constant.Int {
+						idx = append(idx, tr.CoqZ(v))
+					}
+				}
+			}
+			return true
+		})
+		fmt.Fprintf(&g.b, "Definition changeset_line_indices : list Z := [%s].\n", strings.Join(idx, "; "))
+	}
+}
+
 func main() {
 	repo, out := os.Args[1], os.Args[2]
 	dir := filepath.Join(repo, "replication")
@@ -415,6 +546,7 @@ func main() {
 	g.currentFormat(decls, "Datasource.fetchChangesetState", "changeset_current_format")
 	g.changesetFix(decls)
 	g.timeFormats()
+	g.decoders(decls)
 	if err := tr.Emit(filepath.Join(out, "GenReplication.v"), g.b.Bytes()); err != nil {
 		fmt.Fprintln(os.Stderr, err)
 		os.Exit(1)
